@@ -69,6 +69,11 @@ type WALSpec struct {
 	SplitFrame bool `json:"split_frame"`
 	// SyncSplit: additionally split the body of the commit frame in two.
 	SyncSplit bool `json:"sync_split,omitempty"`
+	// PadCommit: after the commit frame that frame is appended again n times.
+	// SQLite does this (walWriteToLog, "sector padding") with synchronous=FULL on
+	// a device without powersafe overwrite (URI parameter psow=0) so that the
+	// commit frame's sector is not shared with later writes.
+	PadCommit int `json:"pad_commit,omitempty"`
 	// TornTail (rollback only): after the listed frames one more frame is begun
 	// and not finished - SQLite writes a frame as header then body, and a failing
 	// body write (disk full, I/O error) makes it roll the transaction back with
@@ -317,6 +322,20 @@ func (c *Conn) RunWALTx(spec WALSpec) (res TxResult) {
 			}
 		}
 		off += ref.WALFrameHeaderSize + int64(d.PageSize)
+	}
+	if spec.Outcome == "commit" && spec.PadCommit > 0 && nframes > 0 {
+		last := spec.Frames[nframes-1]
+		for j := 0; j < spec.PadCommit; j++ {
+			fh := w.Frame(last.Pgno, spec.NewPageN, pages[nframes-1])
+			if err := d.step(fmt.Sprintf("wal padding frame %d", j)); err != nil {
+				return fail("wal-frame", err)
+			}
+			buf := append(append([]byte{}, fh...), pages[nframes-1]...)
+			if err := c.write(c.wal, buf, off); err != nil {
+				return fail("wal-frame", err)
+			}
+			off += ref.WALFrameHeaderSize + int64(d.PageSize)
+		}
 	}
 	if spec.Outcome == "commit" {
 		if err := d.step("wal fsync"); err != nil {
